@@ -2,6 +2,7 @@
 from __future__ import annotations
 
 import asyncio
+import os
 
 from .transports import FakeTransport
 from .vloop import VirtualLoop, close_loop, new_loop
@@ -288,6 +289,52 @@ def capture_factory(start_server_kwargs: dict, config):
         asyncio.set_event_loop(None)
     if "factory" not in captured:
         raise RuntimeError("start_server did not reach create_server")
+    return captured
+
+
+def capture_serve(args, env=None):
+    """Run the command line `nauyaca serve <args>` (typer's CliRunner) with the event loop's create_server
+    stubbed, and return what production would have listened with - as capture_factory() does, but including
+    everything the command does before start_server(): option parsing, TOML loading, environment overrides,
+    CLI-over-file precedence, the certificate-auth / rate-limit / access-control objects it builds.
+    -> dict(factory, host, port, ssl, kwargs, exit_code, output); 'factory' is missing when the command
+    refused to start."""
+    import asyncio.base_events as be
+
+    from typer.testing import CliRunner
+
+    from nauyaca.__main__ import app
+
+    captured = {}
+
+    class _Stop(Exception):
+        pass
+
+    async def fake_create_server(self, factory, host=None, port=None, **kw):
+        captured["factory"] = factory
+        captured["host"] = host
+        captured["port"] = port
+        captured["ssl"] = kw.get("ssl")
+        captured["kwargs"] = dict(kw)
+        raise _Stop()
+
+    orig = be.BaseEventLoop.create_server
+    old_env = {}
+    for k, v in (env or {}).items():
+        old_env[k] = os.environ.get(k)
+        os.environ[k] = v
+    be.BaseEventLoop.create_server = fake_create_server  # type: ignore[method-assign]
+    try:
+        r = CliRunner().invoke(app, ["serve"] + [str(a) for a in args])
+    finally:
+        be.BaseEventLoop.create_server = orig  # type: ignore[method-assign]
+        for k, v in old_env.items():
+            if v is None:
+                os.environ.pop(k, None)
+            else:
+                os.environ[k] = v
+    captured["exit_code"] = r.exit_code
+    captured["output"] = r.output or ""
     return captured
 
 
